@@ -36,6 +36,71 @@ type Case struct {
 	T        string `json:"t"`
 	MaxViews int    `json:"maxViews"`
 	Ops      []Op   `json:"ops"`
+	// Big (instead of Ops): one Append between two windows of a parent far larger than the
+	// histories' buffers (which end at 2^16 samples), see checkBig.
+	Big *Big `json:"big,omitempty"`
+}
+
+// Big: a parent of C channels and K frames filled with position-coded samples;
+// dst = parent.Slice(0,H), src = parent.Slice(S,S+N); dst.Append(src). In place
+// when H+N <= K (the source may overlap the region written, in either
+// direction), to new storage otherwise.
+type Big struct {
+	C int `json:"c"`
+	K int `json:"k"`
+	H int `json:"h"`
+	S int `json:"s"`
+	N int `json:"n"`
+}
+
+func checkBig(c *Case) (res kit.Result) {
+	b := c.Big
+	if b.C < 1 || b.C > 8 || b.K < 1 || b.C*b.K > 1<<21 || b.H < 0 || b.H > b.K || b.S < 0 || b.N < 0 || b.S+b.N > b.K {
+		return
+	}
+	C := b.C
+	parent := kit.AllocAny(c.T, signal.Allocator{Channels: C, Length: b.K, Capacity: b.K})
+	for i := 0; i < C*b.K; i++ {
+		parent.Set(i, kit.IV(int64(1+i%113)))
+	}
+	model := parent.Snap()
+	dst, src := parent.Slice(0, b.H), parent.Slice(b.S, b.S+b.N)
+	// the plain-Go-slice reference: append(model[:C*H], model[C*S:C*(S+N)]...)
+	var moved []kit.Val
+	if b.H+b.N <= b.K {
+		copy(model[C*b.H:C*(b.H+b.N)], model[C*b.S:C*(b.S+b.N)]) // memmove semantics, as append has
+	} else {
+		moved = append(append([]kit.Val(nil), model[:C*b.H]...), model[C*b.S:C*(b.S+b.N)]...)
+	}
+	what := fmt.Sprintf("parent of %d x %d, Slice(0,%d).Append(Slice(%d,%d))", C, b.K, b.H, b.S, b.S+b.N)
+	if p, v := kit.Try(func() { dst.Append(src) }); p {
+		res.Failf("%s panicked: %v", what, v)
+		return
+	}
+	if h := dst.Hdr(); h.Len != C*(b.H+b.N) || h.Length != b.H+b.N || h.Channels != C {
+		res.Failf("%s: destination reports %+v, want length %d frames", what, h, b.H+b.N)
+		return
+	}
+	if d := kit.DiffVals("parent storage", parent.Snap(), model); d != "" {
+		res.Failf("%s: %s (plain Go slices: append copies with memmove semantics%s)", what, d, map[bool]string{true: "", false: "; a growing append leaves the old storage alone"}[moved == nil])
+		return
+	}
+	if moved != nil {
+		if d := kit.DiffVals("destination after moving to new storage", dst.Snap(), moved); d != "" {
+			res.Failf("%s: %s", what, d)
+			return
+		}
+		res.Class("bigGrowingAppend")
+	} else {
+		res.Class("bigAppendInPlace")
+		if b.S < b.H+b.N && b.H < b.S+b.N && b.N > 0 {
+			res.Class("bigSourceOverlapsTheRegionWritten")
+		}
+	}
+	if C*b.N > 1<<16 {
+		res.Class("moreThan65536SamplesAppended")
+	}
+	return
 }
 
 var Types = []string{"int8", "uint16", "int32", "int64", "uint64", "float32", "float64", "NInt16", "NFloat32"}
@@ -396,6 +461,9 @@ func Check(c *Case) (res kit.Result) {
 	if !okT || c.MaxViews < 1 || c.MaxViews > 12 || len(c.Ops) > 2000 {
 		return
 	}
+	if c.Big != nil {
+		return checkBig(c)
+	}
 	s := NewSim(c.T, c.MaxViews, &res)
 	for oi, op := range c.Ops {
 		if !s.Apply(op) {
@@ -417,6 +485,9 @@ func FP(c *Case) uint64 {
 	h.Str(c.T)
 	h.Int(c.MaxViews)
 	h.Int(len(c.Ops))
+	if b := c.Big; b != nil {
+		h.Ints([]int{b.C, b.K, b.H, b.S, b.N})
+	}
 	for _, op := range c.Ops {
 		h.Str(op.Kind)
 		h.Ints([]int{op.V, op.W, op.A, op.B, op.C})
@@ -428,6 +499,21 @@ var genKinds = []string{"alloc", "slice", "slice", "slice", "appendSample", "app
 
 func Gen(t *rapid.T) *Case {
 	c := &Case{T: rapid.SampledFrom(Types).Draw(t, "type"), MaxViews: rapid.IntRange(2, 8).Draw(t, "maxViews")}
+	if kit.Chance(t, "big", 1, 250) {
+		b := &Big{C: rapid.IntRange(1, 4).Draw(t, "bigC")}
+		b.K = rapid.IntRange(66000, 400000).Draw(t, "bigSamples")/b.C + 1
+		b.H = rapid.IntRange(0, b.K).Draw(t, "bigH")
+		b.S = rapid.IntRange(0, b.K).Draw(t, "bigS")
+		if rapid.Bool().Draw(t, "bigNear") { // source starting a few frames before the destination's end
+			b.S = kit.Max(0, b.H-rapid.IntRange(0, 9).Draw(t, "bigLead"))
+		}
+		b.N = rapid.IntRange(0, b.K-b.S).Draw(t, "bigN")
+		if rapid.Bool().Draw(t, "bigFit") && b.K-b.H < b.N { // prefer in-place appends
+			b.N = rapid.IntRange(0, kit.Min(b.K-b.H, b.K-b.S)).Draw(t, "bigNFit")
+		}
+		c.Big = b
+		return c
+	}
 	mainC := rapid.IntRange(1, 8).Draw(t, "mainC")
 	maxK := rapid.SampledFrom([]int{4, 8, 64}).Draw(t, "maxK")
 	k0 := rapid.IntRange(0, maxK).Draw(t, "k0")
